@@ -24,7 +24,7 @@ G_PROPS = {
                 opts={"cycles_bias_one": True, "extreme_p": 0.0, "extreme_every": 3}),
     "C10": dict(oracles=["c10"], families=FAMILIES, modes=MODES, n_quick=6000, n_thorough=60000,
                 opts={"pop_scales": (1, 1.5, 2, 3), "any_pop_p": 0.5}),
-    "C15": dict(oracles=["c15", "c15_trend"], families=FAMILIES, modes=MODES, n_quick=6000, n_thorough=60000,
+    "C15": dict(oracles=["c15", "c15_trend", "c15"], families=FAMILIES, modes=MODES, n_quick=6000, n_thorough=60000,
                 opts={"p_history": 0.35, "history_utils": True}),
     "C17": dict(oracles=["c17"], families=FAMILIES, modes=MODES, n_quick=6000, n_thorough=60000,
                 opts={"only_classified": "elitist.json", "stop_opts": True, "long_int_runs": 0.5}),
@@ -112,11 +112,15 @@ def make_desc(job):
 
 def apply_oracles(pid, desc, rec, seed):
     out = []
-    for name in G_PROPS[pid]["oracles"]:
+    for k_, name in enumerate(G_PROPS[pid]["oracles"]):
         if name == "c15_trend":
             out.extend(oracles_g.c15_trend(desc, rec, random.Random(H(seed, "trend"))))
         else:
             vs = getattr(oracles_g, name)(desc, rec)
+            if pid == "C15" and k_ == 2:
+                # second pass, after the trend utilities have read the history: reading must not rewrite it
+                vs = [dict(v, cls=v["cls"] + ["after_reading"], msg="after the trend utilities were called: " + v["msg"])
+                      for v in vs if not any(o["cls"] == v["cls"] for o in out)]
             if pid == "C11" and name != "c11_pool":
                 for v in vs:
                     v["cls"] = [desc["mode"], name.upper()] + v["cls"]
